@@ -79,7 +79,8 @@ def task_sandbox_name(uid):
     that every call site of task_doc() agrees; several tasks share a name"""
     import zlib
     return [None, None, None, None, 'shared_data', 'shared_data', 'sub/dir',
-            '/abs/sbox/of_tasks'][zlib.crc32(uid.encode()) % 8]
+            '/abs/sbox/of_tasks', None, '../shared_by_pilots', '.hidden_sbox',
+            './dot/rel/'][zlib.crc32(uid.encode()) % 12]
 
 
 def pilot_doc(pid, cores):
@@ -160,8 +161,15 @@ def gen_case(rng, sched):
                                        'mid'])])
         else:
             events.append(['pump', rng.randint(1, 4)])
-    return {'scheduler': sched, 'pids': pids, 'cores': cores, 'events': events,
+    case = {'scheduler': sched, 'pids': pids, 'cores': cores, 'events': events,
             'seed': rng.randint(0, 2 ** 30)}
+    # fault: the assignment of one or two tasks raises (a sandbox which cannot
+    # be derived).  Round robin and the early-binding paths handle that per
+    # task: the task fails, the others of its bulk go on as usual
+    if sched == 'round_robin' and n_t >= 2 and rng.random() < 0.15:
+        case['poison'] = sorted(rng.sample(['t.%03d' % i for i in range(n_t)],
+                                           rng.choice([1, 1, 2])))
+    return case
 
 
 # ------------------------------------------------------------------------------
@@ -186,6 +194,17 @@ class Run(object):
         os.chdir(workdir)
         self.comp = rp.tmgr.Scheduler.create(cfg, _Session(reg))
         self.comp._initialize()
+        self.poison = set(case.get('poison') or [])
+        if self.poison:
+            orig_assign = self.comp._assign_pilot
+
+            def assign(task, pilot, _orig=orig_assign):
+                if task['uid'] in self.poison:
+                    res.count('assignment_faults_injected')
+                    raise RuntimeError('verif: sandbox of %s cannot be derived'
+                                       % task['uid'])
+                return _orig(task, pilot)
+            self.comp._assign_pilot = assign
 
         # independent model, fed from what was actually delivered
         self.role    = dict()          # pid -> 'added' | 'removed'
@@ -228,7 +247,7 @@ class Run(object):
             self.judge_forward(t, step)
         if batch and self.case['scheduler'] == 'round_robin':
             unnamed = [t for t in batch if t['uid'] not in self.early]
-            if unnamed and step[0] in ('work', 'add'):
+            if unnamed and step[0] in ('work', 'add') and not self.poison:
                 res.count('rr_batches_checked')
                 cnt = dict()
                 for t in unnamed:
@@ -459,11 +478,18 @@ class Run(object):
         # reason to fail a task - a task without an eligible pilot waits
         for uid in sorted(self.failed):
             res.count('scheduler_failures_seen')
+            if uid in self.poison:
+                if len(self.failed[uid]) > 1:
+                    self.viol('faulty-task-failed-twice', uid)
+                continue
             self.viol('task-failed-instead-of-waiting',
                       '%s was advanced to FAILED by the scheduler (at %s); '
                       'pilots added: %s' % (uid, self.failed[uid][:1], added))
             break
 
+        for uid in sorted(self.poison & set(self.forward)):
+            self.viol('faulty-task-forwarded', '%s: its assignment raised, it '
+                      'was forwarded to %s' % (uid, self.forward[uid]))
         for uid, (named, cores) in self.tasks.items():
             n = len(self.forward.get(uid, [])) + len(self.failed.get(uid, []))
             if n > 1 and len(self.forward.get(uid, [])) < 2:
